@@ -187,6 +187,31 @@ mod verif_map {
         std::mem::forget(map);
     }
 
+    // presence never flips back to absent: while another thread holds the shard's write lock (it is inserting some
+    // other id), a look-up of a present entry WAITS; it may not answer "absent". The lock model reports the wait
+    // through the block hook, where this path ends; answering at all under the writer is only allowed with the truth.
+    static mut WAITED: bool = false;
+    fn waited(_e: parking_lot::Ev, _a: usize) { unsafe { WAITED = true; } kani::cover!(true, "@map_lookup_waits_for_writer: the look-up waits"); kani::assume(false); }
+    // @h name=map_lookup_waits_for_writer tier=quick cap=1 timeout=1200 props=C01,C02
+    #[kani::proof]
+    #[kani::unwind(4)]
+    fn map_lookup_waits_for_writer() {
+        let map = AssetMap::verif_single_shard();
+        let v1: u64 = kani::any();
+        let h1 = thin(map.insert(entry(1, v1, "a")));
+        parking_lot::set_block_hook(Some(waited));
+        let writer = map.shards[0].0.write();      // another thread is in the middle of an insertion
+        let which: bool = kani::any();
+        if which {
+            assert!(map.contains_key("a", T()), "a present entry was reported absent while another thread was writing to the shard");
+        } else {
+            let g = map.get("a", T());
+            assert!(g.map(thin) == Some(h1), "a present entry was not found while another thread was writing to the shard");
+        }
+        drop(writer);
+        std::mem::forget(map);
+    }
+
     // the real constructor: whatever the number of CPUs, &self look-ups and &mut self removals agree on the shard
     fn stub_cpus() -> std::io::Result<std::num::NonZeroUsize> {
         let n: usize = kani::any();
